@@ -214,8 +214,9 @@ def execute(prog):
             V.append(dict(oracle="C15.ioctl-error-swallowed", where="detect=%d" % cfg["detect"], detail="errno=%s" % op.get("ioctl_errno"),
                           expected="the OS error of the failed ioctl reaches the caller (the command was not executed)", actual="execute returned normally"))
         if ioctl_failed and sgio_mode and WORLD.lookup(DEV) is not node:
-            st["post_replug"] = True          # the node was replaced while the command was in flight
-            inos.append(WORLD.lookup(DEV).ino)
+            st["post_replug"] = True          # the node was replaced (or went away) while the command was in flight
+            if WORLD.lookup(DEV) is not None:
+                inos.append(WORLD.lookup(DEV).ino)
             WORLD.probe("replug_in_flight")
             return kind, val
         open_failed = WORLD.fired.get("open_fails", 0) > fired0.get("open_fails", 0)
